@@ -122,6 +122,7 @@ type Machine struct {
 	mapPerm          map[*mapV][]mapEntry
 	globalFrozen     map[*value]bool
 	globalFrozenMaps map[*mapV]bool
+	pools            map[*value][]value // sync.Pool contents (sequential model)
 }
 
 func NewMachine(sh *Shared, solver *Solver) *Machine {
@@ -166,6 +167,7 @@ func (m *Machine) resetPath(prefix []int32, maxSteps int64) {
 	m.freezeStop = nil
 	m.mapPerm = nil
 	m.globalFrozen, m.globalFrozenMaps = nil, nil
+	m.pools = nil
 }
 
 func (m *Machine) pos() string {
